@@ -8,6 +8,8 @@
  *        -> ok eq <len> | err <Stage>      Stage: Schema Build Validate Print Parse Compare Length Reprint
  *   wd:   explicit | trim | all | all-tag | impl-tag
  *   spec: comma separated <path-hex>=<val>;  <val>: - (none) | l<hex> (literal) | g<len>:<seed> (generated [a-z0-9]* string)
+ *         or O<name-hex>=<val> : a top-level opaque node <name> (JSON format, module name of the tested module) with that
+ *         value and one opaque child "k" = "v"; the tree is then parsed back with LYD_PARSE_OPAQ
  *   leakcheck */
 #define _GNU_SOURCE
 #include <libyang.h>
@@ -56,6 +58,7 @@ op_rt(const char *id, const char *dirhex, const char *yanghex, const char *wd, c
     struct ly_in *in = NULL;
     const char *stage = NULL;
     size_t len = 0, len2;
+    int has_opaq = 0;
     uint32_t opts = wd_flag(wd);      /* lyd_print_all implies WITHSIBLINGS */
 
     if (ly_ctx_new(dir, 0, &ctx)) { stage = "Ctx"; goto done; }
@@ -68,6 +71,20 @@ op_rt(const char *id, const char *dirhex, const char *yanghex, const char *wd, c
 
             if (!eq) { stage = "Build"; goto done; }
             *eq = 0;
+            if (t[0] == 'O') {
+                struct lyd_node *opq = NULL, *kid = NULL;
+
+                path = vp_unhex(t + 1, NULL);
+                val = gen_value(eq + 1);
+                if (lyd_new_opaq(NULL, ctx, path, val, NULL, mod->name, &opq) ||
+                        lyd_new_opaq(opq, ctx, "k", "v", NULL, mod->name, &kid) ||
+                        lyd_insert_sibling(tree, opq, &tree)) {
+                    lyd_free_tree(opq); free(path); free(val); stage = "Build"; goto done;
+                }
+                has_opaq = 1;
+                free(path); free(val);
+                continue;
+            }
             path = vp_unhex(t, NULL);
             val = gen_value(eq + 1);
             if (lyd_new_path(tree, ctx, path, val, LYD_NEW_PATH_UPDATE, &node)) { free(path); free(val); stage = "Build"; goto done; }
@@ -76,14 +93,14 @@ op_rt(const char *id, const char *dirhex, const char *yanghex, const char *wd, c
             free(path); free(val);
         }
     }
-    if (lyd_validate_module(&tree, mod, 0, NULL)) { stage = "Validate"; goto done; }
+    if (!has_opaq && lyd_validate_module(&tree, mod, 0, NULL)) { stage = "Validate"; goto done; }
 
     ly_out_new_memory(&buf, 0, &out);
     if (lyd_print_all(out, tree, LYD_LYB, opts)) { stage = "Print"; goto done; }
     len = ly_out_printed(out);
 
     ly_in_new_memory(buf, &in);
-    if (lyd_parse_data(ctx, NULL, in, LYD_LYB, LYD_PARSE_ONLY | LYD_PARSE_STRICT, 0, &tree2)) { stage = "Parse"; goto done; }
+    if (lyd_parse_data(ctx, NULL, in, LYD_LYB, LYD_PARSE_ONLY | (has_opaq ? LYD_PARSE_OPAQ : LYD_PARSE_STRICT), 0, &tree2)) { stage = "Parse"; goto done; }
     if (lyd_compare_siblings(tree, tree2, LYD_COMPARE_FULL_RECURSION | LYD_COMPARE_DEFAULTS)) { stage = "Compare"; goto done; }
     if ((size_t)lyd_lyb_data_length(buf) != len) {
         vp_reply(id, "err Length %zu %d", len, lyd_lyb_data_length(buf));
